@@ -7,12 +7,14 @@ EXTENDS Diagrams, Counting, TLC
 CONSTANT Enforce
 Req(p, cond) == IF p \in Enforce THEN cond ELSE TRUE
 
-VARIABLES nv, cnf, node, root, den
-tdvars == <<nv, cnf, node, root, den>>
-TSlots == 0 .. 9
+VARIABLES nv, cnf, node, root, den, store
+tdvars == <<nv, cnf, node, root, den, store>>
+(* C06 speaks about both node stores; C11 about the hash-identified (semantic) one only *)
+Req06(cond) == IF "C06" \in Enforce \/ ("C11" \in Enforce /\ store = "sem") THEN cond ELSE TRUE
+TSlots == 0 .. 15
 
 TDReset(e) ==
-  /\ nv' = e.nv /\ cnf' = e.cnf /\ node' = << >>
+  /\ nv' = e.nv /\ cnf' = << >> /\ node' = << >> /\ store' = e.store
   /\ root' = [s \in TSlots |-> IF s = 1 THEN 1 ELSE 0]
   /\ den' = [s \in TSlots |-> IF s = 1 THEN FalseFn ELSE TrueFn]
   \* domain: the decision order is a permutation of the CNF's variables
@@ -25,16 +27,16 @@ TDProduce(e) ==
   IN
   /\ \A i \in 1 .. Len(nn) : nn[i][1] = Len(node) + i /\ NodeOf(nn[i][3]) < nn[i][1] /\ NodeOf(nn[i][4]) < nn[i][1]
   /\ CASE e.ev = "compile" ->
-            Req("C06", /\ d = EvalCnf(cnf)                                  \* exactly the CNF's models
-                       /\ (e.root = 1) = (EvalCnf(cnf) = {})                \* the false constant exactly when unsatisfiable
+            Req06( /\ d = EvalCnf(e.cnf)                                \* exactly the CNF's models
+                       /\ (e.root = 1) = (EvalCnf(e.cnf) = {})              \* the false constant exactly when unsatisfiable
                        /\ NoRepeat(nd2, e.root, {}))                        \* no path decides a variable twice
        [] e.ev = "tneg" -> d = Neg(den[e.a[1]])
-       [] e.ev = "tcond" -> Req("C06", d = Cond(den[e.a[1]], e.a[2], e.a[3] = 1))
+       [] e.ev = "tcond" -> Req06(d = Cond(den[e.a[1]], e.a[2], e.a[3] = 1))
   /\ (IF "dirty" \in DOMAIN e THEN Req("C10", e.dirty = << >>) ELSE TRUE)
   /\ node' = nd2
   /\ root' = [root EXCEPT ![e.res] = e.root]
   /\ den' = [den EXCEPT ![e.res] = d]
-  /\ UNCHANGED <<nv, cnf>>
+  /\ UNCHANGED <<nv, cnf, store>>
 
 TDQuery(e) ==
   /\ CASE e.ev = "eval" -> Req("C07", e.val = (e.a[2] \in den[e.a[1]]))
